@@ -410,25 +410,37 @@ def deepcopyObj (E : Env) (s : Obj) (o' : Nat) (n : Nat) : Copied := cloneTraits
 `item` to the container found there - `append` for a list, `d[key] = item` for
 a dict, `add(key)` for a set - the way that container object does it. -/
 
+/-- `dict.__setitem__`: an existing key keeps its position and gets the new value. -/
+def putKV : List Leaf → List CVal → Leaf → CVal → List Leaf × List CVal
+  | k :: ks, v :: vs, key, item =>
+    if k = key then (k :: ks, item :: vs)
+    else let r := putKV ks vs key item; (k :: r.1, v :: r.2)
+  | ks, vs, key, item => (ks ++ [key], vs ++ [item])
+
+/-- `set.add`. -/
+def addKey (keys : List Leaf) (key : Leaf) : List Leaf := if keys.contains key then keys else keys ++ [key]
+
+/-- The builtin operation, on already validated arguments. -/
+def rawAdd (k : Kind) (i : Nat) (b : Binding) (keys : List Leaf) (kids : List CVal) (key : Leaf) (item : CVal) : CVal :=
+  match k with
+  | .lst => .node k i b keys (kids ++ [item])
+  | .dct => let r := putKV keys kids key item; .node k i b r.1 r.2
+  | .st => .node k i b (addKey keys key) kids
+
 /-- The node's own rule for a new item (`_item_validator` / `_key_validator` /
 `_value_validator` / `_validator` of the three object classes). -/
 def nodeAdd (E : Env) (n : Nat) (k : Kind) (i : Nat) (b : Binding) (keys : List Leaf) (kids : List CVal)
     (key : Leaf) (item : CVal) : Except Exc (CVal × Nat) :=
-  let raw : CVal × Nat :=
-    match k with
-    | .lst => (.node k i b keys (kids ++ [item]), n)
-    | .dct => (.node k i b (keys ++ [key]) (kids ++ [item]), n)
-    | .st => (.node k i b (keys ++ [key]) kids, n)
   match b with
-  | .plain | .detached => .ok raw
+  | .plain | .detached => .ok (rawAdd k i b keys kids key item, n)
   | .ownerless sh =>
     -- list / dict: `object is None` ⇒ no validation; set: validates with object None
     match k, sh with
     | .st, .cont _ kT _ _ _ =>
       match E.lv kT key with
       | .error e => .error e
-      | .ok key' => .ok (.node k i b (keys ++ [key']) kids, n)
-    | _, _ => .ok raw
+      | .ok key' => .ok (rawAdd k i b keys kids key' item, n)
+    | _, _ => .ok (rawAdd k i b keys kids key item, n)
   | .bound o sh =>
     match sh with
     | .cont _ kT iT _ hi =>
@@ -439,19 +451,19 @@ def nodeAdd (E : Env) (n : Nat) (k : Kind) (i : Nat) (b : Binding) (keys : List 
         else
           match validate E o iT n item with
           | .error e => .error e
-          | .ok (item', n') => .ok (.node k i b keys (kids ++ [item']), n')
+          | .ok (item', n') => .ok (rawAdd k i b keys kids key item', n')
       | .dct =>
         match E.lv kT key with
         | .error e => .error e
         | .ok key' =>
           match validate E o iT n item with
           | .error e => .error e
-          | .ok (item', n') => .ok (.node k i b (keys ++ [key']) (kids ++ [item']), n')
+          | .ok (item', n') => .ok (rawAdd k i b keys kids key' item', n')
       | .st =>
         match E.lv kT key with
         | .error e => .error e
-        | .ok key' => .ok (.node k i b (keys ++ [key']) kids, n)
-    | _ => .ok raw
+        | .ok key' => .ok (rawAdd k i b keys kids key' item, n)
+    | _ => .ok (rawAdd k i b keys kids key item, n)
 
 mutual
 def addAt (E : Env) (n : Nat) (key : Leaf) (item : CVal) : List Nat → CVal → Except Exc (CVal × Nat)
